@@ -439,12 +439,23 @@ def oracle(case, info, rng):
     Dt = _poly_table(np, Dterms, sD, scale, size)
     Mt = _poly_table(np, Mterms, sM, scale, size)
     # cross-check the vectorised tables against the real API on sampled assignments (all of them when small)
-    idxs = range(size) if size <= 64 else [rng.randrange(size) for _ in range(48)] + [0, size - 1]
+    idxs = list(range(size)) if size <= 64 else [rng.randrange(size) for _ in range(48)] + [0, size - 1]
+    if size > 64 and N > n:
+        # assignments whose model variables are all 1 while only an ancilla entry tells boolean from spin form
+        # (always an inconsistent ancilla setting; D(s) >= M(convert_solution(s)) is claimed for these too)
+        low = 0 if spinD else (1 << n) - 1
+        idxs += [((rng.randrange(1, 1 << (N - n))) << n) | low for _ in range(12)]
     for ix in idxs:
         s = [int(sD[i][ix]) for i in range(N)]
         x = M.convert_solution(s, spin=spinD)
         if set(x) != set(mp) or any(x[lab] != int(sM[i][ix]) for lab, i in mp.items()):
             return "convert_solution(%s) = %r does not read labels 0..n-1 through M.mapping" % (s, x), "convert"
+        if any(v != 1 for v in s):
+            # the documented default call form: the `spin` flag only matters for the all-ones solution
+            x0 = M.convert_solution(s)
+            if x0 != x:
+                return ("convert_solution(%s) without the `spin` keyword = %r, but the solution is unambiguously in %s form "
+                        "and converts to %r" % (s, x0, "spin" if spinD else "boolean", x)), "convert"
         if Fraction(fs(M.value(x))) * scale != int(Mt[ix]) or Fraction(fs(R.value(s))) * scale != int(Dt[ix]):
             return "value table mismatch at %s (harness self-check)" % s, "selfcheck"
     # (a) every assignment x of M has an extension with equality, whatever the penalty
